@@ -43,6 +43,7 @@ func main() {
 	gor := fs.Int("g", 8, "goroutines")
 	seed := fs.Int64("seed", 1, "seed")
 	timeoutMs := fs.Int("timeout", 4000, "watchdog in ms (applied twice)")
+	budgetMs := fs.Int("budget", 0, "time budget in ms: when reached, stop issuing calls, join, report (0 = none)")
 	prefill := fs.String("prefill", "", "comma separated operations run sequentially first (pair)")
 	var pos []string
 	args := os.Args[2:]
@@ -51,6 +52,9 @@ func main() {
 		args = args[1:]
 	}
 	fs.Parse(args)
+	if *budgetMs > 0 {
+		conc.Deadline = time.Now().Add(time.Duration(*budgetMs) * time.Millisecond)
+	}
 	out := conc.NewOut(os.Stdout)
 	to := time.Duration(*timeoutMs) * time.Millisecond
 	defer out.Flush()
